@@ -576,8 +576,8 @@ class BaseCurve(Intface_BaseCurve):
                 newctrlpoints.append(0 * oldctrlpoints[0])
                 for j, point in enumerate(oldctrlpoints):
                     newpoint = line[j] * point
-                    newpoint /= self.weights[i]
-                    newctrlpoints[i] += newpoint
+                    newpoint = newpoint / self.weights[i]
+                    newctrlpoints[i] = newctrlpoints[i] + newpoint
             self.ctrlpoints = newctrlpoints
 
 
